@@ -12,6 +12,7 @@ package c19
 import (
 	"fmt"
 	"sort"
+	"strconv"
 	"strings"
 	"testing"
 
@@ -354,16 +355,28 @@ func sortedEnumNames() []string {
 
 // ---------- running ----------
 
+// script: one script text per (shape, number of arguments); the function and
+// the callback are selected by name at run time (`enum[fname]`, `cbs[cbname]`)
+// so that the compiled form can be reused.
 func (c *enumCase) script() (string, map[string]tengo.Object) {
 	row := enumRows[c.fn]
 	var sb strings.Builder
-	inputs := map[string]tengo.Object{"x": c.x}
-	sb.WriteString("enum := import(\"enum\")\nlog := []\n")
+	inputs := map[string]tengo.Object{"x": c.x, "fname": strObj(c.fn)}
+	sb.WriteString("enum := import(\"enum\")\nlog := []\nf := enum[fname]\n")
 	var call []string
 	switch row.shape {
 	case "xf":
-		sb.WriteString("cb := " + c.cb.src + "\n")
+		sb.WriteString("cbs := {\n")
+		for i, cb := range callbacks {
+			sb.WriteString("  " + strconv.Quote(cb.name) + ": " + cb.src)
+			if i < len(callbacks)-1 {
+				sb.WriteString(",")
+			}
+			sb.WriteString("\n")
+		}
+		sb.WriteString("}\ncb := cbs[cbname]\n")
 		sb.WriteString("w := func(k, v) { log = append(log, [k, v]); return cb(k, v) }\n")
+		inputs["cbname"] = strObj(c.cb.name)
 		call = []string{"x", "w"}
 	default:
 		inputs["a"] = c.arg
@@ -375,7 +388,7 @@ func (c *enumCase) script() (string, map[string]tengo.Object) {
 		}
 		call = call[:c.nargs]
 	}
-	sb.WriteString("r := enum." + c.fn + "(" + strings.Join(call, ", ") + ")\n")
+	sb.WriteString("r := f(" + strings.Join(call, ", ") + ")\n")
 	return sb.String(), inputs
 }
 
